@@ -87,6 +87,8 @@ pub struct WorkerOutput {
     pub switches: u64,
     pub switches_inside_call: u64,
     pub crashes_fired: u64,
+    #[serde(default)]
+    pub stall_handoffs: u64,
     pub abort: Option<String>,
     pub env_changed: Vec<String>,
     pub cwd_changed: bool,
@@ -325,6 +327,7 @@ fn run_process(input: &WorkerInput) -> WorkerOutput {
         switches: report.switches,
         switches_inside_call: report.switches_inside_call,
         crashes_fired: report.crashes_fired,
+        stall_handoffs: report.stall_handoffs,
         abort,
         env_changed,
         cwd_changed: cwd_before != cwd_after,
@@ -523,9 +526,14 @@ pub fn gen_plan(rng: &mut Rng) -> RunPlan {
             0..=8 => ShaderRef::Repo {
                 path: rng.pick(corpus::REPO_SHADERS).to_string(),
             },
-            9..=17 => ShaderRef::Gen {
+            9..=14 => ShaderRef::Gen {
                 seed: rng.below(48),
                 scale: rng.range(1, 3) as u32,
+            },
+            15..=17 => ShaderRef::Deep {
+                shape: rng.below(3) as u8,
+                depth: rng.range(30, 47) as u32,
+                variant: rng.below(6) as u32,
             },
             _ => ShaderRef::Bad {
                 which: rng.below(7) as u32,
@@ -646,6 +654,7 @@ pub struct RunStats {
     pub switches: u64,
     pub switches_inside_call: u64,
     pub crashes_fired: u64,
+    pub stall_handoffs: u64,
     pub entropy_requests: u64,
     pub realtime_reads: u64,
     pub formatter_spawns: u64,
@@ -717,6 +726,7 @@ fn execute(scratch: &Scratch, golden: &Golden, plan: &RunPlan, record: bool) -> 
         stats.switches += out.switches;
         stats.switches_inside_call += out.switches_inside_call;
         stats.crashes_fired += out.crashes_fired;
+        stats.stall_handoffs += out.stall_handoffs;
         stats.entropy_requests += out.entropy_requests;
         stats.realtime_reads += out.realtime_reads;
         stats.formatter_spawns += out.formatter_spawns;
@@ -991,6 +1001,7 @@ fn add_stats(a: &mut RunStats, b: &RunStats) {
     a.switches += b.switches;
     a.switches_inside_call += b.switches_inside_call;
     a.crashes_fired += b.crashes_fired;
+    a.stall_handoffs += b.stall_handoffs;
     a.entropy_requests += b.entropy_requests;
     a.realtime_reads += b.realtime_reads;
     a.formatter_spawns += b.formatter_spawns;
@@ -1268,6 +1279,7 @@ pub fn main(tier: Tier) -> i32 {
         "outcome_classes_compared": {"ok": s.ok_outcomes, "err": s.err_outcomes, "panic": s.panic_outcomes},
         "realtime_clock_reads_in_workers": s.realtime_reads,
         "formatter_children_not_reaped": s.unreaped_children,
+        "stall_handoffs_baton_holder_blocked_outside_seams": s.stall_handoffs,
         "determinism_pairs_checked": det_n,
         "known_findings_hit": known_hits,
         "components": {
